@@ -66,6 +66,11 @@ def run(ck):
     ck.run_rule(i10_first_iteration)
     from .c12 import q7_uci_query
     ck.run_rule(q7_uci_query)   # I9: the move tokens are converted to (origin, destination, promotion) queries
+    # the book branch and the reused search memory answer by position hash: a hash that confuses positions with different legal moves
+    # makes `bestmove` illegal (C08 rules; the C16 / C03 provenance rules are not repeated here)
+    from .c08 import h1_h2_h5_influence, h4_keys
+    ck.run_rule(h1_h2_h5_influence)
+    ck.run_rule(h4_keys)
 
 
 def _shape(ck, rule):
